@@ -148,6 +148,7 @@ class Canon:
                 if c and self.inlinable(c) is not None:
                     self.run_fn(self.fns[c], stack + (p,))
             self.drop_debug_asserts(body)
+            self.ret_if(body)
             self.guard_else(body)
             self.flag_exits(body)
             self.assert_eq_forms(body)
@@ -456,7 +457,29 @@ class Canon:
         for s in stmts0:
             k = s.get("k")
             done = False
-            if k in ("Semi", "Expr"):
+            if k in ("Semi", "Expr") and _strip(s["e"]).get("k") == "Ret" and isinstance(_strip(s["e"]).get("e"), dict):
+                # `return helper(..);` with a private helper that returns the caller's own type: the helper's `return`s are the
+                # caller's, its value is returned
+                r0 = _strip(s["e"])
+                e0 = _strip(r0["e"])
+                c0 = _callee(e0)
+                f0 = self.inlinable(c0, allow_ret=True) if c0 else None
+                if f0 is None and c0:
+                    f1 = self.inlinable(c0, allow_ret=True, allow_try=True)
+                    if f1 is not None and self._err_type(f1.get("output")) is not None and str(f1.get("output")) == str(owner.get("output")):
+                        f0 = f1
+                if f0 is not None and str(f0.get("output")) == str(owner.get("output")) and c0 != owner.get("path"):
+                    inst = self._instance(f0, e0)
+                    if inst is not None and inst[2] is not None:
+                        pre, st, tail = inst
+                        out.extend(pre)
+                        out.extend(st)
+                        r0["e"] = tail
+                        out.append(s)
+                        done = changed = True
+            if done:
+                pass
+            elif k in ("Semi", "Expr"):
                 e = s["e"]
                 call, f = self._target(e)
                 if f is not None:
@@ -1515,6 +1538,38 @@ class Canon:
                 if vv is not None:
                     m[kk] = vv
             self.stats["split_last"] = self.stats.get("split_last", 0) + 1
+
+    def ret_if(self, body):
+        """`return if c { A } else { B };`  ->  `if c { return A; } else { return B; }` (also nested): each arm is an exit of its own."""
+        again = True
+        while again:
+            again = False
+            for n in [y for y in _walk(body) if y.get("k") == "Ret" and isinstance(y.get("e"), dict)]:
+                e = _strip(n["e"])
+                if e.get("k") != "If" or e.get("else") is None or e.get("m") or isinstance(e.get("cond"), dict) and e["cond"].get("k") == "LetCond":
+                    continue
+                sp = n.get("sp") or [0, 0, 0, 0]
+
+                def arm(a):
+                    a0 = a
+                    if _strip(a0).get("k") == "Block" and not _strip(a0).get("m"):
+                        b = _strip(a0)
+                        val = b.get("expr")
+                        if val is None:
+                            return None
+                        r_ = {"k": "Ret", "e": val, "id": self._id(), "ty": "!", "sp": list(val.get("sp") or sp)}
+                        return {"k": "Block", "stmts": list(b.get("stmts", [])) + [{"k": "Semi", "e": r_, "sp": list(r_["sp"])}], "expr": None, "id": self._id(), "ty": "!", "sp": list(b.get("sp") or sp)}
+                    r_ = {"k": "Ret", "e": a0, "id": self._id(), "ty": "!", "sp": list(a0.get("sp") or sp)}
+                    return {"k": "Block", "stmts": [{"k": "Semi", "e": r_, "sp": list(r_["sp"])}], "expr": None, "id": self._id(), "ty": "!", "sp": list(a0.get("sp") or sp)}
+                t_, f_ = arm(e["then"]), arm(e["else"])
+                if t_ is None or f_ is None:
+                    continue
+                new = {"k": "If", "cond": e["cond"], "then": t_, "else": f_, "id": self._id(), "ty": "!", "sp": list(sp)}
+                n.clear()
+                n.update(new)
+                self.stats["ret_if"] = self.stats.get("ret_if", 0) + 1
+                again = True
+                break
 
     def guard_else(self, body):
         """`if C { BODY } else { <diverges> }`  ->  `if !C { <diverges> }  BODY` (statement or tail position): the guard spelled with
